@@ -8,7 +8,7 @@ from hypothesis import strategies as st
 from vlib.runner import Result
 
 ID = 'C19'
-RULE = ('Cases = value arrays (1-40 values in +-1e5 on a 1e-3 grid or free floats, NaNs interspersed, constant arrays, '
+RULE = ('Cases = value arrays (1-40 values in +-1e5 on a 1e-3 grid or free floats, nearly constant arrays whose spread (>= 1e-6) is tiny against their magnitude, NaNs interspersed, constant arrays, '
         'single values; ndarray or pandas Series) x mode in {shift-and-scale (scale in [1e-3, 1e6], shift given or '
         'derived), minmax-scale (min_range >= 0 with effective span >= 1e-6, or explicit min_val < max_val), step-scale '
         '(0-4 ascending steps, positive scales)}; the deterministic kwargs are derived through scaler.convert_kwargs '
@@ -29,10 +29,17 @@ MIN_PER_SHARD = 100
 @st.composite
 def strategy_(draw):
     n = draw(st.integers(1, 40))
-    kind = draw(st.sampled_from(['grid', 'grid', 'free', 'const', 'ints']))
+    kind = draw(st.sampled_from(['grid', 'grid', 'free', 'const', 'ints', 'quasi']))
     if kind == 'const':
         v = draw(st.integers(-100000, 100000)) / 1.0
         vals = [v] * n
+    elif kind == 'quasi':
+        # nearly constant: spread far below the magnitude, but inside the domain (span >= 1e-6)
+        v = float(draw(st.sampled_from([0, 1000, 30000, 99999, -900])))
+        delta = draw(st.sampled_from([1e-6, 1e-4, 1e-2, 0.25]))
+        vals = [v + delta * k for k in draw(st.lists(st.integers(0, 4), min_size=n, max_size=n))]
+        if len(set(vals)) == 1:
+            vals[0] = v + delta * 5
     elif kind == 'ints':
         vals = [float(x) for x in draw(st.lists(st.integers(0, 30000), min_size=n, max_size=n))]
     elif kind == 'grid':
@@ -51,7 +58,7 @@ def strategy_(draw):
         fin = [v for v in vals if v is not None]
         span = (max(fin) - min(fin)) if fin else 0
         if draw(st.booleans()):
-            mr = draw(st.sampled_from([0, 1e-6, 1, 1000, 1000, 50000, 1e6]))
+            mr = draw(st.sampled_from([0, 0, 1e-6, 1e-3, 1, 1000, 1000, 50000, 1e6]))
             if max(span, mr) < 1e-6:
                 mr = 1000
             kw['min_range'] = mr
